@@ -32,8 +32,8 @@ KINDS = ['styles', 'automatic-styles', 'master-styles', 'font-face-decls']
 PAGEBREAK = 'odfdopagebreak'
 
 LAYER = {1: "container: the inserted style is not the last child of the container its family and kind require",
-         2: "uniqueness: two styles with the same tag class, family and name in one container",
-         3: "found-again: the document's style lookup does not return the style just inserted under the returned name",
+         2: "uniqueness: two styles with the same tag class, family and name in one container (or in two containers of one part)",
+         3: "found-again: the document's style lookup does not return, under a name an operation returned, the style it was returned for",
          4: "frame: another style was changed or lost",
          5: "fresh-name: the generated name is already the name of a style of that family",
          6: "merge: the other document was changed",
@@ -181,6 +181,9 @@ def step_term(p):
     if k == 'reload':
         lk = '[' + ';'.join('(%d, %s, %s, %s)' % (f, coq_opt(n, lambda v: '(%s)' % v), coq_loc(b), coq_loc(a)) for f, n, b, a in p['lookups']) + ']'
         return sh.wrap('SReload %s %s %s' % (coq_store(p['pre'], sh), coq_store(p['post'], sh), lk))
+    if k == 'found':
+        pr = '[' + ';'.join('(%d, (%s), %d, %s)' % (f, n, e, coq_loc(l)) for f, n, e, l in p['promises']) + ']'
+        return sh.wrap('SFound %s %s' % (coq_store(p['pre'], sh), pr))
     raise ValueError(k)
 
 
@@ -245,9 +248,38 @@ def drive(odfdo, A, spec, pool):
     t = A.t
     doc = odfdo.Document(spec['doc'])
     steps, registry = [], []
-    for si, op in enumerate(spec['ops']):
+    promises = []          # (family string, name string, content id) an operation has returned and nobody redefined since
+    queue = [(si, op) for si, op in enumerate(spec['ops'])]
+    while queue:
+        si, op = queue.pop(0)
         name = op[0]
         pre, _ = A.store(doc)
+        nsteps = len(steps); npromised = len(promises); old_promises = list(promises)
+        if name == 'adv':
+            # adversarial names: a style called like the NEXT name the generator would produce enters the document
+            # (by insert_style or by a merge), then the generator runs again
+            gen, how, fam = op[1], op[2], op[3]
+            allnames = {e_.get(ST + 'name') for r_ in A.roots(doc) for c_ in r_ for e_ in c_ if isinstance(e_.tag, str)}
+            if gen == 'ta':
+                k = 0
+                while 'ta_%d' % k in allnames: k += 1
+                nm, fam = 'ta_%d' % (k + op[4]), 'table'
+            else:
+                mx = 0
+                for nm_ in allnames:
+                    if nm_ and nm_.startswith('odfdo_auto_'):
+                        try: mx = max(mx, int(nm_[11:]))
+                        except ValueError: pass
+                nm = 'odfdo_auto_%d' % (mx + 1 + op[4])
+            sp = dict(family=fam, name=nm, variant=7, how='xml')
+            new = []
+            if how == 'merge':
+                new.append(['merge', 'text' if spec['doc'] != 'text' else 'spreadsheet', [], [[1, sp]]])
+            else:
+                new.append(['insert', sp, how, None])
+            new.append(['table', op[5], True] if gen == 'ta' else ['insert', dict(family=fam, name=None, variant=8, how='xml'), 'automatic', None])
+            queue[0:0] = [(si, o) for o in new]
+            continue
         if name == 'insert':
             s = op[1]
             el = odfdo.Element.from_tag(style_xml(t, s)) if s.get('how', 'xml') == 'xml' else odfdo.Style(s['family'], name=s.get('name'))
@@ -264,6 +296,12 @@ def drive(odfdo, A, spec, pool):
                 impl = ('done', (post, A.name(ret)))
                 if ret is not None or op[2] == 'default':
                     registry.append((s['family'], ret))
+                if ret is not None and s['family'] in t['fam_id']:
+                    promises[:] = [q for q in promises if q[1] != ret]          # redefined on purpose (or shadowed: F96)
+                    if found is not None and found in where.values():
+                        ent = post[found[0]][found[1]]
+                        if ent[3] == style_abs[3] and ent[2] == A.name(ret):
+                            promises.append((s['family'], ret, ent[3]))
             except Timeout:
                 raise
             except Exception as e:
@@ -327,6 +365,7 @@ def drive(odfdo, A, spec, pool):
                 final = [e for e in new if e[2] == tabs2[tidx]]
                 created = [e for e in new if e[2] != tabs2[tidx]]
                 impl = ('done', (post, tabs2))
+                table_style_name = tel.get(TB + 'style-name')
                 eid_final = final[0][3] if final else 0
                 eid_created = created[0][3] if created else 0
             except Timeout:
@@ -369,6 +408,27 @@ def drive(odfdo, A, spec, pool):
             steps.append((si, dict(kind='reload', pre=pre, post=post, lookups=lookups)))
         else:
             raise ValueError(name)
+        # ---- promises: names returned earlier must keep finding the same style
+        if len(steps) > nsteps:
+            last = steps[-1][1]; kind = last['kind']; done = last.get('impl', ('done',))[0] == 'done'
+            if kind == 'merge' and done:
+                onames = {e[2] for sl in last['other_pre'] if sl for e in sl}
+                promises[:] = [q for q in promises if A.name(q[1]) not in onames]
+            elif kind == 'delete':
+                promises[:] = []
+            elif kind == 'pagebreak':
+                promises[:] = [q for q in promises if q[1] != PAGEBREAK]
+            elif kind == 'table' and done and last['eid_final']:
+                promises[:] = [q for q in promises if q[1] != table_style_name] + [('table', table_style_name, last['eid_final'])]
+            earlier = [q for q in promises if q in old_promises]      # promises made by earlier operations
+            if earlier and kind in ('insert', 'merge', 'table', 'pagebreak'):
+                cur, where = A.store(doc)
+                pr = []
+                for fam, nm, eid in promises:
+                    try: loc = locate(where, doc.get_style(fam, nm))
+                    except Exception: loc = None
+                    pr.append((t['fam_id'][fam], A.name(nm), eid, loc))
+                steps.append((si, dict(kind='found', pre=cur, promises=pr)))
     return steps
 
 
@@ -385,6 +445,7 @@ def shape(p):
     if k == 'table': return (k, sizes, p['tables'][p['tidx']] is None, p['eid_created'] != 0)
     if k == 'pagebreak': return (k, sizes, p['existing_ok'])
     if k == 'reload': return (k, sizes, len(p['lookups']))
+    if k == 'found': return (k, sizes, len(p['promises']), tuple(q[1].split(' ')[0] for q in p['promises']))
     return (k, sizes)
 
 
@@ -487,7 +548,9 @@ def gen_cases(tier, rng, t, templates, samples, names_by_doc):
     cases = []
     # (a) every family x {common, automatic, default} x {named, unnamed} on every template, once fresh and once replacing
     for tpl in templates:
-        for fam in sorted(t['FM']):
+        for fi, fam in enumerate(sorted(t['FM'])):
+            if tier == 'quick' and tpl in ('presentation', 'drawing') and fi % 3 != (0 if tpl == 'presentation' else 1):
+                continue            # the two big templates: every third family in the quick tier (all of them in thorough)
             for mode in ('common', 'automatic', 'default'):
                 for nm in ('N1', None):
                     if not in_domain(t, fam, mode, nm): continue
@@ -519,13 +582,15 @@ def gen_cases(tier, rng, t, templates, samples, names_by_doc):
     cases.append(dict(doc='spreadsheet', ops=[['merge', 'spreadsheet', [], [[1, NTS]]]], family='number-text-style'))
     cases.append(dict(doc='spreadsheet', ops=[['raw', 1, NTS], ['table', 0, False]], family='number-text-style'))
     cases.append(dict(doc='spreadsheet', ops=[['raw', 1, NTS], ['delete']], family='number-text-style'))
+    cases += gen_adversarial(tier, t, templates, samples)
+    cases += gen_cross_container(tier, t, templates, samples, scan_styles_xml(templates + samples, set(t['STD'])))
     # (c) every document merged into a template of its kind and into itself
     for s in templates + samples:
         cases.append(dict(doc='text', ops=[['merge', s, []], ['reload']], family='merge-all'))
         cases.append(dict(doc=s, ops=[['merge', s, []]], family='merge-self'))
         cases.append(dict(doc=s, ops=[['pagebreak'], ['table', 0, False], ['delete'], ['reload']], family='ops-all-docs'))
     # (d) random histories
-    for _ in range(260 if tier == 'quick' else 2500):
+    for _ in range(200 if tier == 'quick' else 2500):
         cases.append(gen_history(rng, t, templates, samples, names_by_doc))
     return cases, nsys
 
@@ -550,6 +615,91 @@ def scan_names(srcs):
     return out
 
 
+def scan_styles_xml(srcs, std):
+    """(container kind 0 = office:styles / 1 = office:automatic-styles, family, name) of the named style:style elements of
+    the standard families in styles.xml of each pool document"""
+    import zipfile
+    out = {}
+    tpl = {'text': 'text.ott', 'spreadsheet': 'spreadsheet.ots', 'presentation': 'presentation.otp', 'drawing': 'drawing.otg'}
+    for s in srcs:
+        path = str(common.SRC / 'odfdo' / 'templates' / tpl[s]) if s in tpl else s
+        l = []
+        try:
+            root = etree.fromstring(zipfile.ZipFile(path).read('styles.xml'))
+            for ki, kind in enumerate(KINDS[:2]):
+                c = root.find(OF + kind)
+                for e in (c if c is not None else []):
+                    if isinstance(e.tag, str) and e.tag == ST + 'style' and e.get(ST + 'name') and e.get(ST + 'family') in std and '"' not in e.get(ST + 'name'):
+                        l.append((ki, e.get(ST + 'family'), e.get(ST + 'name')))
+        except Exception:
+            pass
+        out[s] = l
+    return out
+
+
+def gen_adversarial(tier, t, templates, samples):
+    """name generators against adversarial names: after a generated name has been seen, a style called like the next
+    name(s) enters by insert_style or by a merge, then the generator runs again; every name returned must keep finding
+    its style (SFound steps)"""
+    cases = []
+    sheets = ['spreadsheet'] + [x for x in samples if x.endswith('.ods')][: (1 if tier == 'quick' else 9)]
+    for src in sheets:
+        for how in ('automatic', 'common', 'merge'):
+            for off in (0, 1):
+                cases.append(dict(doc=src, ops=[['table', 0, False], ['adv', 'ta', how, 'table', off, 0], ['table', 0, False], ['reload']], family='adversarial-names'))
+    for how in ('automatic', 'merge'):
+        cases.append(dict(doc='spreadsheet', ops=[['add_table', 'T1'], ['table', -1, False], ['adv', 'ta', how, 'table', 0, -1], ['adv', 'ta', how, 'table', 0, 0], ['reload']], family='adversarial-names'))
+        cases.append(dict(doc='text', ops=[['add_table', 'T1'], ['table', -1, True], ['adv', 'ta', how, 'table', 1, -1], ['reload']], family='adversarial-names'))
+    for src in ('text', 'spreadsheet'):
+        for fam in ('paragraph', 'table-cell'):
+            for how in ('automatic', 'common', 'merge'):
+                for off in (0, 1):
+                    cases.append(dict(doc=src, ops=[['insert', dict(family=fam, name=None, variant=1, how='xml'), 'automatic', None],
+                                                    ['adv', 'auto', how, fam, off, 0], ['adv', 'auto', how, fam, 0, 0], ['reload']], family='adversarial-names'))
+    return cases
+
+
+def gen_cross_container(tier, t, templates, samples, sx):
+    """the same (family, name) sits in office:styles on one side of a merge and in office:automatic-styles of styles.xml on
+    the other side, both directions; constructed names and names the pool documents really carry (MP1 ...)"""
+    cases = []
+    fams = ['paragraph', 'graphic', 'table', 'text'] if tier == 'quick' else list(t['STD'])
+    for r, o in (('text', 'presentation'), ('presentation', 'text')):
+        for fam in fams:
+            a, b = dict(family=fam, name='X1', variant=3, how='xml'), dict(family=fam, name='X1', variant=4, how='xml')
+            cases.append(dict(doc=r, ops=[['insert', a, 'common', None], ['merge', o, [], [[5, b]]], ['reload']], family='merge-cross-container'))
+            cases.append(dict(doc=r, ops=[['raw', 5, a], ['merge', o, [[b, 'common']], []], ['reload']], family='merge-cross-container'))
+    docs = templates if tier == 'quick' else templates + samples[:8]
+    for r in docs:
+        have = {(f, n) for _, f, n in sx.get(r, [])}
+        for o in docs:
+            if o == r: continue
+            for kind, rawslot in ((1, None), (0, 5)):
+                cand = [(f, n) for k, f, n in sx.get(o, []) if k == kind and (f, n) not in have][: (1 if tier == 'quick' else 3)]
+                for f, n in cand:
+                    sp = dict(family=f, name=n, variant=5, how='xml')
+                    pre = ['insert', sp, 'common', None] if rawslot is None else ['raw', rawslot, sp]
+                    cases.append(dict(doc=r, ops=[pre, ['merge', o, []], ['reload']], family='merge-cross-container'))
+    return cases
+
+
+def run_shards_hands(header, hands, checker, tag):
+    """common.run_shards on explicitly given shards (one call per hand would serialise; instead the hands are padded to
+    equal length with a trivially passing case so that consecutive chunking reproduces them)"""
+    if not hands: return {}, []
+    width = max(len(h) for h in hands)
+    pad = '(SFound [] [])'
+    flat = []
+    for h in hands:
+        flat += h + [pad] * (width - len(h))
+    bad, errors = common.run_shards(header, flat, checker, tag, shard=width)
+    out = {}
+    for j, code in bad.items():
+        hi, pos = divmod(j, width)
+        if pos < len(hands[hi]): out[(hi, pos)] = code
+    return out, errors
+
+
 def evaluate(specs, tables, pool, tag, nproc=16):
     import multiprocessing as mp
     _WORK['tables'], _WORK['pool'] = tables, pool
@@ -570,7 +720,21 @@ def evaluate(specs, tables, pool, tag, nproc=16):
     for idx in range(len(specs)):
         for si, kind, term, err, dg, oc in per.get(idx, []):
             terms.append(term); where.append((idx, si, kind, err, dg, oc))
-    bad, errors = common.run_shards(HEADER, terms, "chk", tag, shard=max(20, min(120, len(terms) // 48 + 1)))
+    # balance the shards: deal the terms out by decreasing size (big presentation stores would otherwise share a shard)
+    nsh = max(1, min(48, len(terms) // 20 + 1))
+    order = sorted(range(len(terms)), key=lambda j: -len(terms[j]))
+    shard = (len(terms) + nsh - 1) // nsh if terms else 1
+    perm = [j for k in range(nsh) for j in order[k::nsh]]
+    # consecutive blocks of `shard` terms of perm must be the dealt hands: pad-free because hands differ by at most one
+    hands = [order[k::nsh] for k in range(nsh)]
+    perm, starts = [], []
+    for h in hands:
+        perm += h
+    bad_p, errors = run_shards_hands(HEADER, [[terms[j] for j in h] for h in hands], "chk", tag)
+    bad = {}
+    for hi, h in enumerate(hands):
+        for pos, j in enumerate(h):
+            if (hi, pos) in bad_p: bad[j] = bad_p[(hi, pos)]
     out = {i: [] for i in range(len(specs))}
     for j, (idx, si, kind, err, dg, oc) in enumerate(where):
         out[idx].append((si, kind, bad.get(j, 0), err, dg, oc))
@@ -579,6 +743,7 @@ def evaluate(specs, tables, pool, tag, nproc=16):
 
 def key_of(code, kind, spec, si, err):
     op = spec['ops'][si]
+    if op[0] == 'adv': return "adversarial-name/%s-code-%d" % (kind, code)
     if code == 11 and err and "object has no attribute" in err and any(o[0] == 'raw' and 'xml' in o[2] for o in spec['ops'][:si + 1]) \
             or code == 11 and err and "object has no attribute" in err and op[0] == 'merge' and len(op) > 3 and any('xml' in x[1] for x in op[3]):
         return "get_styles/element-with-style-name-that-is-no-style-class"
@@ -661,7 +826,7 @@ def run(tier, seed, replay=None):
     for idx, spec in enumerate(specs):
         fam_hist[spec.get('family', 'corpus')] = fam_hist.get(spec.get('family', 'corpus'), 0) + 1
         for op in spec['ops']:
-            k = op[0] + ('/' + op[2] if op[0] == 'insert' else '')
+            k = op[0] + ('/' + op[2] if op[0] in ('insert', 'adv') else '')
             op_hist[k] = op_hist.get(k, 0) + 1
         for si, kind, code, err, dg, oc in res[idx]:
             kinds[kind] = kinds.get(kind, 0) + 1; outcomes[oc] = outcomes.get(oc, 0) + 1
